@@ -27,6 +27,8 @@ def run(chk, ctx) -> None:
     _board(chk, ctx)
     _gate(chk, ctx)
     _street(chk, ctx)
+    from .cover import board_rows
+    board_rows(chk, ctx, 'C10.board')
 
 
 def _setup(chk, ctx) -> None:
